@@ -122,10 +122,15 @@ def order_sensitive_case(rng):
     names = rng.sample(sorted(ORDER_SENSITIVE_UNITS), rng.randint(1, 3))
     n = rng.randint(2, 9)
     plain = G.random_ast(rng, n, max_depth=2, p_branch=rng.choice([0.0, 0.25]), p_bond=0.0, n_rings=rng.choice([0, 0, 1]), names=names,
-                         p_trailing_branch=rng.choice([0, 0.2]), orders=(1,), p_pct=0.0)
+                         p_trailing_branch=rng.choice([0, 0.2]), orders=(1,), p_pct=0.0, p_mult_node=rng.choice([0.0, 0.0, 0.4]), max_mult=3)
+    if G.features(plain) & {'ring_on_mult_anchor', 'node_mult_after_bond_in_mult_unit'}:
+        return None
     ast = copy.deepcopy(plain)
-    flat = [e for e, _, _, _ in G._flat(ast)]
-    free = [m for m in range(10, 100) if not any(r[1] == m for e in flat for r in e['rings'])]
+    everything = [e for e, _, _, _ in G._flat(ast)]
+    # insertions hang on (and ring bonds end at) nodes that are written once; an order-0 edge may well LEAD INTO a
+    # multiplied node ('[#V].[#A]|3')
+    flat = [e for e in everything if e['mult'] == 1] or everything[:1]
+    free = [m for m in range(10, 100) if not any(r[1] == m for e in everything for r in e['rings'])]
     rng.shuffle(free)
     feats = {'order_sensitive_units'} | {'unit_' + x for x in names}
     nv = 0
@@ -160,7 +165,7 @@ def order_sensitive_case(rng):
             ast.append(G.el('V%d' % nv, bond=0))
             nv += 1
             feats.add('virtual_last')
-        elif how == 'first':
+        elif how == 'first' and ast[0].get('bond') is None:
             ast[0]['bond'] = 0
             ast.insert(0, G.el('V%d' % nv))
             nv += 1
